@@ -1,4 +1,7 @@
 import GenjaxModel.Proofs.State
+import GenjaxModel.Proofs.StateSpec
+import GenjaxModel.Proofs.StateSpecShape
+import GenjaxModel.Proofs.StateSpecAsis
 /-!
 # C19 — state/save collects exactly what was saved
 
@@ -53,5 +56,171 @@ theorem C19_asis_ns_across_scan_cex :
     collect ⟨false⟩ p = some [(["x"], SV.stack [SV.atom 1 [0], SV.atom 1 [1]])] ∧
     collect ⟨true⟩ p = some [(["a", "x"], SV.stack [SV.atom 1 [0], SV.atom 1 [1]])] :=
   asis_ns_across_scan_cex
+
+/-!
+## Refinement of an event-list specification, for EVERY program
+
+`Model/StateSpec.lean` defines the SPEC: `SPL.saves p outer ns idx lanes` lists the save events of a
+program in chronological order, each with its FULL path (all enclosing namespaces, also those opened
+around enclosing scans, then the name) and its batched value; the events of `scan body n` are, for
+every path written by the body, one event whose value is the stack over the iterations of what that
+iteration left there; `collectSpec p` replays the events on the empty dictionary, later write wins.
+The model (`SP.exec`) instead runs every scan iteration in a fresh interpreter with an EMPTY namespace
+stack and merges the stacked result afterwards; the theorems below show that the repaired merge makes
+the two agree on all programs: arbitrary nesting of scans in scans, vmaps, namespaces opened inside
+and around scans, overwrites, leaf-mode saves, and also programs that raise (both sides `none`) or
+leave namespaces open inside a scan body (both sides drop them at the end of the iteration).
+-/
+
+/-- **C19 for every program** (repaired code): the collected dictionary IS the replay of the save
+    events of the program, as an equality of `Option Store` - same failures, same entries, same
+    values, same insertion order. No well-bracketedness hypothesis is needed. -/
+theorem C19_collect_refines_spec (p : SPL) : collect ⟨true⟩ p = collectSpec p :=
+  collect_refines_spec p
+
+/-- the same for a block started in ANY interpreter state (any store, any open namespaces), under
+    any enclosing scan indices and vmaps: the interpreter replays the block's events on its store -/
+theorem C19_exec_refines_spec (p : SPL) (idx lanes : List Nat) (st : St) :
+    p.exec ⟨true⟩ idx lanes st
+      = (p.saves [] st.ns idx lanes).map
+          fun r => { store := r.1.foldl (fun s e => Store.set s e.1 e.2) st.store, ns := r.2 } :=
+  SPL.exec_spec p idx lanes st
+
+/-- non-vacuity / worked instance: a namespace around a scan of a scan with overwrites
+    (`with namespace a: scan(λ. save(x=e1); scan(λ. save(y=e2); save(y=e3), 2); save(x=e4), 2)`,
+    then `save(z=e5)`): both sides are this three-entry dictionary -/
+example :
+    let p : SPL := .cons (.push "a") (.cons (.scan (.cons (.tag "x" 1) (.cons (.scan
+      (.cons (.tag "y" 2) (.cons (.tag "y" 3) .nil)) 2) (.cons (.tag "x" 4) .nil))) 2)
+      (.cons .pop (.cons (.tag "z" 5) .nil)))
+    let expected : Store :=
+      [(["a", "y"], .stack [.stack [.atom 3 [0, 0], .atom 3 [0, 1]],
+                            .stack [.atom 3 [1, 0], .atom 3 [1, 1]]]),
+       (["a", "x"], .stack [.atom 4 [0], .atom 4 [1]]),
+       (["z"], .atom 5 [])]
+    collect ⟨true⟩ p = some expected ∧ collectSpec p = some expected := by
+  intro p expected
+  constructor <;> rfl
+
+/-- the collected dictionary read path by path: at `q` it holds the value of the LAST save at exactly
+    `q`, unless a later save at a path above `q` replaced that whole sub-dictionary (`lastSave`) -/
+theorem C19_collected_is_last_save (p : SPL) (s : Store) (h : collect ⟨true⟩ p = some s) :
+    ∃ evs, savesTop p = some evs ∧ ∀ q, s.get? q = lastSave evs q := by
+  rw [collect_refines_spec, collectSpec, Option.map_eq_some_iff] at h
+  obtain ⟨evs, hevs, rfl⟩ := h
+  exact ⟨evs, hevs, get_collectEvents evs⟩
+
+/-- a saved value is collected: if the save events of `p` are `before ++ (q, v) :: after` and nothing
+    in `after` is saved at `q` or at a path above `q`, then the program does not raise and the
+    collected dictionary holds `v` at `q` -/
+theorem C19_saved_value_collected (p : SPL) (evs before after : List Event) (q : Path) (v : SV)
+    (hs : savesTop p = some evs) (hsplit : evs = before ++ (q, v) :: after)
+    (hlast : ∀ e ∈ after, isPrefix e.1 q = false) :
+    ∃ s, collect ⟨true⟩ p = some s ∧ s.get? q = some v := by
+  refine ⟨collectEvents evs, by rw [collect_refines_spec, collectSpec, hs]; rfl, ?_⟩
+  rw [get_collectEvents, hsplit]
+  exact lastSave_split before after q v hlast
+
+/-- non-vacuity: in `save(x=e1); with namespace a: scan(λ. save(y=e2), 2); save(x=e3)` the second
+    save of `x` is the last event and it is what is collected at `x` -/
+example :
+    let p : SPL := .cons (.tag "x" 1) (.cons (.push "a") (.cons (.scan (.cons (.tag "y" 2) .nil) 2)
+      (.cons .pop (.cons (.tag "x" 3) .nil))))
+    ∃ s, collect ⟨true⟩ p = some s ∧ s.get? ["x"] = some (.atom 3 []) := by
+  intro p
+  exact C19_saved_value_collected p
+    [(["x"], .atom 1 []), (["a", "y"], .stack [.atom 2 [0], .atom 2 [1]]), (["x"], .atom 3 [])]
+    [(["x"], .atom 1 []), (["a", "y"], .stack [.atom 2 [0], .atom 2 [1]])] [] ["x"] (.atom 3 [])
+    rfl rfl (fun e he => by cases he)
+
+/-- nothing else is collected: every entry of the collected dictionary is (path and value of) one of
+    the save events of the program -/
+theorem C19_nothing_else_collected (p : SPL) (s : Store) (h : collect ⟨true⟩ p = some s) :
+    ∃ evs, savesTop p = some evs ∧ ∀ e ∈ s, e ∈ evs := by
+  rw [collect_refines_spec, collectSpec, Option.map_eq_some_iff] at h
+  obtain ⟨evs, hevs, rfl⟩ := h
+  exact ⟨evs, hevs, fun e he => mem_collectEvents evs e he⟩
+
+/-- which paths a block saves to, whether it raises, and the namespace stack it leaves do not depend
+    on the enclosing iteration indices and vmap sizes - so all iterations of a scan write the same
+    paths -/
+theorem C19_saved_paths_independent_of_indices (p : SPL) (outer ns : List String)
+    (idx lanes idx' lanes' : List Nat) :
+    (p.saves outer ns idx lanes).map (fun r => (r.1.map (·.1), r.2))
+      = (p.saves outer ns idx' lanes').map (fun r => (r.1.map (·.1), r.2)) :=
+  SPL.saves_shape p outer ns idx lanes idx' lanes'
+
+/-- the events of a scan, spelled out without any default value (the `getD` in `stackEvents` /
+    `stackStores` is never used): the scan leaves the namespace stack alone; each of its events has
+    as value the stack, over ALL iterations `i < n` in order, of the value iteration `i` of the body
+    left at that path (later write wins inside the body), the body being run under the namespaces
+    `outer ++ ns` enclosing the scan with no namespace of its own open; and the paths of the scan's
+    events are exactly the paths left by any one iteration -/
+theorem C19_scan_event_is_stack_of_iterations (body : SPL) (n : Nat) (outer ns : List String)
+    (idx lanes : List Nat) (evs : List Event) (ns' : List String)
+    (h : (SP.scan body n).saves outer ns idx lanes = some (evs, ns')) :
+    ns' = ns ∧
+    (∀ e ∈ evs, ∃ vals : List SV, e.2 = SV.stack vals ∧ vals.length = n ∧
+      ∀ i (hi : i < vals.length), ∃ r, body.saves (outer ++ ns) [] (idx ++ [i]) lanes = some r ∧
+        (collectEvents r.1).get? e.1 = some vals[i]) ∧
+    (∀ i, i < n → ∃ r, body.saves (outer ++ ns) [] (idx ++ [i]) lanes = some r ∧
+        evs.map (·.1) = (collectEvents r.1).map (·.1)) :=
+  scan_saves_char body n outer ns idx lanes evs ns' h
+
+/-- non-vacuity: a scan (under namespace `a`) whose body overwrites `x` and opens a namespace -/
+example :
+    (SP.scan (.cons (.tag "x" 1) (.cons (.push "b") (.cons (.tag "y" 2) (.cons .pop
+        (.cons (.tag "x" 3) .nil))))) 2).saves ["a"] [] [] []
+      = some ([(["a", "b", "y"], .stack [.atom 2 [0], .atom 2 [1]]),
+               (["a", "x"], .stack [.atom 3 [0], .atom 3 [1]])], []) := by rfl
+
+/-- **the code before the repair** (`nsAcrossScan = false`) satisfies the same specification on the
+    programs accepted by `SPL.asisOK` (`Model/StateSpec.lean`): every scan - at any nesting depth - is
+    reached with no namespace open in its interpreter, and the top-level names written by its body are
+    different from all top-level names written before it in the same interpreter. For those programs
+    neither side raises, the two dictionaries have the same entries (`List.Perm`) and answer every
+    look-up alike. This carves out exactly what the repair changed: namespaces around a scan, and
+    sibling entries under a top-level name that a scan also writes.
+
+    `_partial` because (1) the entries may come in a different ORDER in the flat store (the old merge
+    groups the scan's entries by top-level name; see `C19_asis_order_differs`), so the full statement
+    `collect ⟨false⟩ p = collectSpec p` is false as an equality of lists, and (2) `asisOK` is a
+    sufficient syntactic condition, not a characterisation. -/
+theorem C19_asis_agrees_without_ns_around_scan_partial (p : SPL) (ns' seen' : List String)
+    (h : p.asisOK ([], []) = some (ns', seen')) :
+    ∃ m s, collect ⟨false⟩ p = some m ∧ collectSpec p = some s ∧ m.Perm s ∧
+      ∀ q, m.get? q = s.get? q :=
+  collect_asis_refines_spec p ns' seen' h
+
+/-- non-vacuity, and why only "up to order": this program (a save, then a scan whose body opens and
+    closes a namespace twice around a nested scan with an overwrite) is accepted by `asisOK`; the
+    old code and the spec collect the same four entries, the last two in different order -/
+theorem C19_asis_order_differs :
+    let p : SPL := .cons (.tag "z" 5) (.cons (.scan (.cons (.push "a") (.cons (.tag "x" 1) (.cons .pop
+      (.cons (.scan (.cons (.tag "y" 2) (.cons (.tag "y" 3) .nil)) 2) (.cons (.push "a")
+      (.cons (.tag "w" 4) (.cons .pop .nil))))))) 2) .nil)
+    let y : SV := .stack [.stack [.atom 3 [0, 0], .atom 3 [0, 1]],
+                          .stack [.atom 3 [1, 0], .atom 3 [1, 1]]]
+    p.asisOK ([], []) = some ([], ["z", "a", "y", "y", "a"]) ∧
+    collect ⟨false⟩ p = some [(["z"], .atom 5 []), (["a", "x"], .stack [.atom 1 [0], .atom 1 [1]]),
+      (["a", "w"], .stack [.atom 4 [0], .atom 4 [1]]), (["y"], y)] ∧
+    collectSpec p = some [(["z"], .atom 5 []), (["a", "x"], .stack [.atom 1 [0], .atom 1 [1]]),
+      (["y"], y), (["a", "w"], .stack [.atom 4 [0], .atom 4 [1]])] := by
+  intro p y
+  refine ⟨by rfl, by rfl, by rfl⟩
+
+/-- the two defects `asisOK` excludes, on the smallest programs: a namespace around a scan (rejected;
+    the old code loses the namespace, see `C19_asis_ns_across_scan_cex`) and a scan writing under a
+    top-level name used before (rejected; the old code drops the earlier sibling entry `a.k`) -/
+theorem C19_asisOK_rejects_the_repaired_defects :
+    let p1 : SPL := .cons (.push "a") (.cons (.scan (.cons (.tag "x" 1) .nil) 2) (.cons .pop .nil))
+    let p2 : SPL := .cons (.push "a") (.cons (.tag "k" 1) (.cons .pop
+      (.cons (.scan (.cons (.push "a") (.cons (.tag "x" 2) (.cons .pop .nil))) 2) .nil)))
+    p1.asisOK ([], []) = none ∧ p2.asisOK ([], []) = none ∧
+    collect ⟨false⟩ p2 = some [(["a", "x"], .stack [.atom 2 [0], .atom 2 [1]])] ∧
+    collect ⟨true⟩ p2 = some [(["a", "k"], .atom 1 []),
+      (["a", "x"], .stack [.atom 2 [0], .atom 2 [1]])] := by
+  intro p1 p2
+  refine ⟨by rfl, by rfl, by rfl, by rfl⟩
 
 end Genjax.State
